@@ -22,7 +22,7 @@ def run(ctx):
         sw = rnd.random()
         if sw < 0.2:
             cfgk["accounts_mod"]["validate_future_position"] = False
-        elif sw < 0.3:
+        elif sw < 0.45:
             cfgk["accounts_mod"]["validate_stock_position"] = False
         return S, cfgk
     tstream.stream(ctx, ctx.n(60, 3000), corrs, [monitors.c10_monitor], gen=gen, extra_sync=lambda c, tr, ix: sync_misc.validators_sync(c, vc, tr, ix))
